@@ -31,8 +31,17 @@ class C21(Check):
         return {"terms": terms, "wkc_errors": rng.choice([0, 0, 1, 1, 1, 5, 2 ** 32 - 1]), "wkc_mode": rng.choice(["expected", "expected", "random", "zero", "mixed"]),
                 "seed": rng.randrange(2 ** 30), "index": rng.randrange(256)}
 
+    def loop_case(self, rng):
+        script = [rng.choice(["sterile", "active", "active", "lost"]) for _ in range(rng.randint(4, 9))]
+        if "lost" not in script:
+            script[rng.randrange(1, len(script))] = "lost"
+        return {"kind": "loop", "script": script}
+
     def gen_cases(self):
-        return [self.make_case(self.rng) for _ in range(80 if self.tier == "quick" else 800)]
+        import random
+        cases = [self.make_case(self.rng) for _ in range(80 if self.tier == "quick" else 800)]
+        rng = random.Random(self.seed + 12)      # its own stream: the cases above stay what they were
+        return cases + [self.loop_case(rng) for _ in range(6 if self.tier == "quick" else 60)]
 
     def build(self, case, kernel):
         import random
@@ -90,6 +99,8 @@ class C21(Check):
         terms, idx = [], []
         for i, c in enumerate(cases):
             c["_run"] = None
+            if c.get("kind") == "loop":
+                continue
             with sim_kernel.installed() as kernel:
                 try:
                     c["_b"] = self.build(c, kernel)
@@ -106,6 +117,11 @@ class C21(Check):
         return log
 
     def run_impl(self, case):
+        if case.get("kind") == "loop":
+            try:
+                return self.run_loop(case["script"])
+            except Exception as e:      # noqa
+                return Err(8, f"{type(e).__name__}: {e}")
         b = case["_b"]
         if isinstance(b, Err):
             return b
@@ -125,6 +141,8 @@ class C21(Check):
         return clist([f"({cnat(s)}, {cnat(w)}, {cz(c)}, {cz(e)})" for s, w, c, e in b["otf"]])
 
     def model_term(self, case):
+        if case.get("kind") == "loop":
+            return None
         b = case["_b"]
         if isinstance(b, Err) or case.get("_o") is None:
             return None
@@ -141,6 +159,12 @@ class C21(Check):
     def holds(self, case, o):
         if isinstance(o, Err):
             return f"{o.what}; {case}"
+        if case.get("kind") == "loop":
+            if o["bad"]:
+                return f"{len(o['bad'])} of {o['frames']} cyclic frames sent by the real FastSyncGroup.run() had enabled write datagrams; first: {o['bad'][0]}"
+            if o["frames"] < len(case["script"]):
+                return f"the loop sent only {o['frames']} cyclic frames for a script of {len(case['script'])}"
+            return True
         b = case["_b"]
         fin, fout = b["frame_in"], bytes.fromhex(o["frame"])
         ster, full = bytes.fromhex(o["sterile"]), bytes.fromhex(o["full"])
@@ -169,7 +193,81 @@ class C21(Check):
         return True
 
     def nontrivial(self, case, o):
-        return not isinstance(o, Err) and case["wkc_errors"] != 0
+        return not isinstance(o, Err) and (case.get("kind") == "loop" or case["wkc_errors"] != 0)
+
+    def run_loop(self, script):
+        """the user-space half of a fast group: the REAL FastSyncGroup.run() on the simulated bus; the 'kernel' hands it sterile and
+        active frames and loses some (20 ms timeout, re-send): every cyclic frame that leaves user space must have its write
+        datagrams disabled."""
+        from .rig import Rig
+        from ebpfcat.ebpfcat import FastEtherCat, FastSyncGroup, Device, TerminalVar
+        res = {"frames": 0, "lost": 0, "bad": []}
+
+        class Dev(Device):
+            a = TerminalVar()
+            b = TerminalVar()
+
+            def __init__(self, t):
+                self.a = t.in_word
+                self.b = t.out_word
+
+            def program(self):
+                pass
+
+        async def one(kernel):
+            specs = [dict(pos=1001 + i, **{"in": 8, "out": 4}, fmmu=i % 2 == 0, rw=True) for i in range(2)]
+            rig = Rig(specs, ec_class=FastEtherCat)
+            state = {"k": 0}
+
+            def deliver(no, req, resp):
+                sg_ = state.get("sg")
+                if sg_ is None or len(req) < 30:
+                    return [resp]
+                idx, = struct.unpack_from("<I", req, 4)
+                if idx != getattr(sg_, "packet_index", None):
+                    return [resp]
+                res["frames"] += 1
+                for start, stop, cmd in sg_.packet.on_the_fly:
+                    if req[start] != 0:
+                        res["bad"].append(f"cyclic frame #{state['k']} left user space with command {req[start]} (not NOP) in the write datagram at {start}, "
+                                          f"working counter {req[stop - 2] | req[stop - 1] << 8}")
+                what = script[state["k"] % len(script)]
+                state["k"] += 1
+                if what == "lost":
+                    res["lost"] += 1
+                    return []
+                r = bytearray(resp)
+                if what == "active":
+                    # what the group's program makes of it: odd loop index (EtherXDP.INDEX0 - 14), write datagrams enabled and processed
+                    r[3] |= 1
+                    for start, stop, cmd in sg_.packet.on_the_fly:
+                        r[start] = cmd.value
+                        r[stop - 2], r[stop - 1] = 1, 0
+                else:
+                    r[3] &= 0xfe
+                return [bytes(r)]
+            rig.connect(deliver)
+            devs = [Dev(t) for t in rig.terms]
+            rig.ec.programs = kernel.create_map(type("T", (), {"name": "PROG_ARRAY"}), 4, 4, 64)
+            sg = FastSyncGroup(rig.ec, devs)
+            sg.cycletime = 0
+            state["sg"] = sg
+            task = sg.start()
+            for _ in range(3000):
+                await asyncio.sleep(0)
+                if task.done() or state["k"] >= len(script):
+                    break
+                if state["k"] and script[(state["k"] - 1) % len(script)] == "lost":
+                    await asyncio.sleep(0.03)
+            task.cancel()
+            try:
+                await task
+            except BaseException:      # noqa
+                pass
+            await rig.shutdown()
+        with sim_kernel.installed() as kernel:
+            asyncio.run(one(kernel))
+        return res
 
     def extra_checks(self):
         # the property is stated over the frame histories of the dispatcher (C22): the real dispatcher bytecode must be the
@@ -181,12 +279,20 @@ class C21(Check):
 
     def rule(self):
         return ("fast sync groups over 1-4 simulated terminals (FMMU or direct, read-write or read-only: 1-5 write datagrams), frames from the real sterile() "
-                "with working counters equal to / different from the expected values, wkc_errors 0 (output disabled), 1, 5, 2**32-1")
+                "with working counters equal to / different from the expected values, wkc_errors 0 (output disabled), 1, 5, 2**32-1; "
+                "plus scripted runs of the real FastSyncGroup.run() on the simulated bus, in which the kernel side answers with sterile or activated frames "
+                "or loses the frame (timeout and re-send): no cyclic frame may leave user space with an enabled write datagram")
 
     def distribution(self, cases, observed):
         d = {"disabled": 0, "write_datagrams": 0, "wrong_counters": 0, "errors": 0}
         for c, o in zip(cases, observed):
             d["errors"] += isinstance(o, Err)
+            if c.get("kind") == "loop":
+                d["loop_scripts"] = d.get("loop_scripts", 0) + 1
+                if not isinstance(o, Err):
+                    d["loop_frames"] = d.get("loop_frames", 0) + o["frames"]
+                    d["loop_frames_lost"] = d.get("loop_frames_lost", 0) + o["lost"]
+                continue
             d["disabled"] += c["wkc_errors"] == 0
             if not isinstance(c.get("_b"), Err) and c.get("_b"):
                 d["write_datagrams"] += len(c["_b"]["otf"])
